@@ -7708,6 +7708,8 @@ class Subpath:
     def __add__(self, other):
         if isinstance(other, (str, Path, PathSegment)):
             n = copy(self)
+            if isinstance(other, PathSegment):
+                other = copy(other)  # The sum must not hold (and re-link) the operand itself.
             n += other
             return n
         return NotImplemented
